@@ -29,7 +29,7 @@ fn band_mis(t: &mut Toks, cx: &mut Ctx) -> String {
         guarded(|| { let mut z = a.clone(); z += b.clone(); z }), guarded(|| { let mut z = a.clone(); z -= b.clone(); z })];
     let mut out = String::new();
     for r in &rs {
-        match r { Ok(_) => cx.check(same, "binary operation between banded matrices of different shapes returned a value"), Err(c) => cx.check(!same && *c == "size", &format!("banded operation rejected matching shapes / wrong panic ({})", c)) }
+        match r { Ok(_) => cx.check(same, "binary operation between banded matrices of different shapes returned a value"), Err(c) => cx.check(!same, &format!("banded operation rejected matching shapes ({})", c)) }
         push_res(&mut out, r.as_ref().map(|z| format!("{} {} {} {}", z.size(), z.size_below(), z.size_above(), wr_mat(z.compact()))).map_err(|c| *c), cx);
     }
     cx.check(a == sa && b == sb, "a by-reference banded operator mutated an operand");
